@@ -72,9 +72,11 @@ pub(crate) mod proofs {
                 assert!(rejected.is_none(),                                  "accepted: nothing handed back");
                 assert!(len_after.map(|l| l.get()) == Some(s.qn + 1),        "accepted: reports len_after == |queue|+1 (the id ring can never be full when the pool had a free slot)");
                 assert!(after[id as usize] == x,                             "accepted: payload written into pool slot free[0]");
-                let k: usize = kani::any(); kani::assume(k < N && k != id as usize);
-                assert!(after[k] == before[k],                               "accepted: no other payload slot written (slots held by consumers are not overwritten)");
-                assert!(pa::free_list_is(&*q.allocator, s.pool.origin.wrapping_add(1), &shifted(&s.pool.perm), s.pool.free - 1), "accepted: free' = free.drop_first()");
+                let k: usize = kani::any();
+                if k < N && k != id as usize {
+                    assert!(after[k] == before[k],                               "accepted: no other payload slot written (slots held by consumers are not overwritten)");
+                    assert!(pa::free_list_is(&*q.allocator, s.pool.origin.wrapping_add(1), &shifted(&s.pool.perm), s.pool.free - 1), "accepted: free' = free.drop_first()");
+                }
                 // queue' = queue.push(id): perm rotated so that id follows the old queue
                 let mut expect = [0u32; N]; let mut i = 0;
                 while i < s.qn as usize { expect[i] = s.pool.perm[(s.pool.free as usize + i) % N]; i += 1; }
@@ -86,9 +88,12 @@ pub(crate) mod proofs {
                 assert!(len_after.is_none(),                                 "rejected: no length reported");
                 assert!(pa::free_list_is(&*q.allocator, s.pool.origin, &s.pool.perm, 0), "rejected: free list unchanged (no slot leaked)");
                 assert!(queue_is(&q, s.q_origin, &s.pool.perm, s.pool.free, s.qn), "rejected: queue unchanged");
-                let k: usize = kani::any(); kani::assume(k < N);
-                assert!(after[k] == before[k],                               "rejected: payload storage unchanged");
+                let k: usize = kani::any();
+                if k < N {
+                    assert!(after[k] == before[k],                               "rejected: payload storage unchanged");
+                }
             }
+            kani::cover!(true, "end of harness reachable (vacuity guard)");
         }
 
         // @props C01 C16
@@ -108,6 +113,7 @@ pub(crate) mod proofs {
                 assert!(len_after.is_none(),                                 "rejected: no length");
                 assert!(pa::free_list_is(&*q.allocator, s.pool.origin, &s.pool.perm, 0) && queue_is(&q, s.q_origin, &s.pool.perm, s.pool.free, s.qn), "rejected: nothing changed");
             }
+            kani::cover!(true, "end of harness reachable (vacuity guard)");
         }
 
         // @props C01 C02 C05 C15
@@ -140,8 +146,11 @@ pub(crate) mod proofs {
                 assert!(queue_is(&q, s.q_origin, &s.pool.perm, s.pool.free, 0) && pa::free_list_is(&*q.allocator, s.pool.origin, &s.pool.perm, s.pool.free), "consume (empty): nothing changed");
             }
             let after = payloads(&q);
-            let k: usize = kani::any(); kani::assume(k < N);
-            assert!(after[k] == before[k],                                   "consume/release never write payload storage (u32 has no destructor)");
+            let k: usize = kani::any();
+            if k < N {
+                assert!(after[k] == before[k],                                   "consume/release never write payload storage (u32 has no destructor)");
+            }
+            kani::cover!(true, "end of harness reachable (vacuity guard)");
         }
 
         // @props C08 C16 C01
@@ -178,6 +187,7 @@ pub(crate) mod proofs {
                 assert!(r.is_none(),                                         "reserve: None iff the pool is exhausted");
                 assert!(pa::free_list_is(&*q.allocator, s.pool.origin, &s.pool.perm, 0) && queue_is(&q, s.q_origin, &s.pool.perm, s.pool.free, s.qn), "reserve refused: nothing changed");
             }
+            kani::cover!(true, "end of harness reachable (vacuity guard)");
         }
 
         // @props C01 C02
@@ -197,6 +207,7 @@ pub(crate) mod proofs {
                 assert!(got.is_none() && empties.get() == 1,                 "consume(getter): None + empty reported once");
                 assert!(pa::free_count(&*q.allocator) == s.pool.free,        "consume(getter) on empty: pool untouched");
             }
+            kani::cover!(true, "end of harness reachable (vacuity guard)");
         }
 
         // @props C02 C16
@@ -205,6 +216,7 @@ pub(crate) mod proofs {
             let (q, s, _) = any_zc::<N>();
             assert!(q.available_elements_count() == s.qn as usize && q.remaining_elements_count() == s.qn as usize, "pending count == |queue|");
             assert!(q.max_size() == N,                                       "max_size == BUFFER_SIZE");
+            kani::cover!(true, "end of harness reachable (vacuity guard)");
         }
     } )* } }
     fszc_proofs! {
